@@ -199,8 +199,46 @@ def _obj(x):
     return common.make_range(x[1], x[2], x[3])
 
 
+_USED = [0]
+
+
+def _use_published_blocks():
+    """The special-purpose blocks are public constants (netaddr.ip.IPV4_LOOPBACK, the members of IPV6_RESERVED, ...):
+    a user passes them to the library's own functions like any other network - added to a set that holds the
+    sibling block, merged with it, spanned, excluded.  The library copies its arguments; a function that keeps and
+    widens the caller's object would rewrite the classification table (seed C18-r11-1).  Done every few hundred
+    classifications, errors ignored: only the classifications that follow are compared."""
+    common.COUNTS['call/published-blocks-used-as-arguments'] += 1
+    seen = []
+    for name in dir(nip):
+        v = getattr(nip, name)
+        if name.startswith('IPV') and isinstance(v, IPNetwork):
+            seen.append(v)
+        elif name.startswith('IPV') and isinstance(v, (tuple, list)):
+            seen += [b for b in v if isinstance(b, IPNetwork)]
+    for b in seen:
+        try:
+            w = W[b.version]
+            if not 0 < b.prefixlen <= w:
+                continue
+            sib = IPNetwork((b.first ^ (1 << (w - b.prefixlen)), b.prefixlen), version=b.version)
+            s = netaddr.IPSet([sib])
+            s.add(b)
+            s2 = netaddr.IPSet([sib])
+            s2.update([b])
+            netaddr.cidr_merge([b, sib])
+            netaddr.spanning_cidr([b, sib])
+            netaddr.cidr_exclude(b, sib)
+            s.remove(b)
+        except Exception:
+            pass
+
+
 def impl(c):
     x = c.args[1]
+    _USED[0] += 1
+    if _USED[0] % 400 == 1:
+        _use_published_blocks()
     try:
         o = _obj(x)
         flags = [o.is_unicast(), o.is_multicast(), o.is_loopback(), o.is_private(), o.is_link_local(), o.is_reserved()]
